@@ -2040,47 +2040,76 @@ int main(int argc, char** argv)
     std::vector<std::string> samples;
     bool anyCap = false;
     int maxDepth = 0;
+    struct Summary { volatile int completed, cap, done; };
+    Summary* sum = (Summary*)mmap(0, 4096, PROT_READ | PROT_WRITE, MAP_SHARED | MAP_ANONYMOUS, -1, 0);
     for (size_t ci = 0; ci < NC; ++ci)
     {
         if ((int)(ci % (size_t)nshards) != shard) continue;
         const Container& c = g_containers[ci];
         if (only && (std::string(",") + only + ",").find(std::string(",") + c.name + ",") == std::string::npos) continue;
         const int depth = std::max(1, (quick ? c.depthQuick : c.depthThorough) + depthDelta);
-        const double tc = nowS();
-        Search s(c, depth, W, t0 + budget);
-        s.run();
-        const std::string n = c.name;
-        counts["states"] += s.tot.states;
-        counts["transitions"] += s.tot.transitions;
-        counts["evaluations"] += s.tot.comparisons;
-        counts["nontrivial"] += s.tot.nontrivial;
-        counts["fatal_outcomes"] += s.tot.fatals;
-        counts["ops_disabled_by_precondition"] += s.tot.disabled;
-        counts["pruned_after_violation"] += s.tot.prunedAfterViolation;
-        counts["nontrivial_transitions"] += s.tot.evtTransitions;
-        counts["ops_switched_off_after_fatal"] += s.tot.opsOff;
-        counts["transitions_skipped_op_off"] += s.tot.skippedOff;
-        if (s.tot.opsOff) { anyCap = true; counts["cap_hit_" + n] = 1; }
-        counts["violations_raw"] += s.tot.violRaw;
-        counts["containers"] += 1;
-        counts["states_" + n] = s.tot.states;
-        counts["transitions_" + n] = s.tot.transitions;
-        counts["nontrivial_" + n] = s.tot.nontrivial;
-        counts["depth_" + n] = s.completed;
-        counts["depth_wanted_" + n] = depth;
-        counts["ms_" + n] = (long long)((nowS() - tc) * 1000);
-        if (s.capHit || s.completed < depth) { anyCap = true; counts["cap_hit_" + n] = 1; }
-        maxDepth = std::max(maxDepth, s.completed);
-        // minimal history per signature: BFS order = (level, parent, op)
-        std::stable_sort(s.viols.begin(), s.viols.end(), [](const Viol& x, const Viol& y)
+        // one process per container: its seen-set and frontier are gone when it ends, so the next container forks from a small parent
+        sum->completed = 0; sum->cap = 0; sum->done = 0;
+        fflush(stdout);
+        const pid_t cpid = fork();
+        if (cpid < 0) { perror("fork"); return 2; }
+        if (cpid == 0)
         {
-            if (x.level != y.level) return x.level < y.level;
-            if (x.parent != y.parent) return x.parent < y.parent;
-            return x.op < y.op;
-        });
-        std::set<std::string> sigs;
-        for (auto& v : s.viols) if (sigs.insert(v.sig).second) allViols.push_back(v);
-        for (auto& x : s.samples) samples.push_back(x);
+            std::map<std::string, long long> cc;
+            const double tc = nowS();
+            Search s(c, depth, W, t0 + budget);
+            s.run();
+            const std::string n = c.name;
+            cc["states"] = s.tot.states;
+            cc["transitions"] = s.tot.transitions;
+            cc["evaluations"] = s.tot.comparisons;
+            cc["nontrivial"] = s.tot.nontrivial;
+            cc["fatal_outcomes"] = s.tot.fatals;
+            cc["ops_disabled_by_precondition"] = s.tot.disabled;
+            cc["pruned_after_violation"] = s.tot.prunedAfterViolation;
+            cc["nontrivial_transitions"] = s.tot.evtTransitions;
+            cc["ops_switched_off_after_fatal"] = s.tot.opsOff;
+            cc["transitions_skipped_op_off"] = s.tot.skippedOff;
+            cc["violations_raw"] = s.tot.violRaw;
+            cc["containers"] = 1;
+            cc["states_" + n] = s.tot.states;
+            cc["transitions_" + n] = s.tot.transitions;
+            cc["nontrivial_" + n] = s.tot.nontrivial;
+            cc["depth_" + n] = s.completed;
+            cc["depth_wanted_" + n] = depth;
+            cc["ms_" + n] = (long long)((nowS() - tc) * 1000);
+            const bool cap = s.capHit || s.completed < depth || s.tot.opsOff;
+            if (cap) cc["cap_hit_" + n] = 1;
+            // minimal history per signature: BFS order = (level, parent, op)
+            std::stable_sort(s.viols.begin(), s.viols.end(), [](const Viol& x, const Viol& y)
+            {
+                if (x.level != y.level) return x.level < y.level;
+                if (x.parent != y.parent) return x.parent < y.parent;
+                return x.op < y.op;
+            });
+            for (auto& kv : cc) printf("count\t%s\t%lld\n", kv.first.c_str(), kv.second);
+            std::set<std::string> sigs;
+            for (auto& v : s.viols) if (sigs.insert(v.sig).second) printf("viol\t%s\t%s\n", escField(v.sig).c_str(), escField(v.detail).c_str());
+            for (auto& x : s.samples) printf("sample\t%s\n", escField(x).c_str());
+            fflush(stdout);
+            sum->completed = s.completed; sum->cap = cap ? 1 : 0; sum->done = 1;
+            _exit(0);
+        }
+        int st = 0; waitpid(cpid, &st, 0);
+        if (!sum->done)
+        {
+            // the per-container master itself ended abnormally: a verdict too, and certainly not exhaustive
+            Viol v; v.level = 0; v.parent = 0; v.op = 0;
+            v.sig = std::string("harness|") + c.name + "|abnormal-exit";
+            v.detail = std::string("container=") + c.name + " history=[] :: the search process for this container ended abnormally (status " + istr(st) + ")";
+            allViols.push_back(v);
+            anyCap = true; counts["cap_hit_" + std::string(c.name)] = 1;
+        }
+        else
+        {
+            if (sum->cap) anyCap = true;
+            maxDepth = std::max(maxDepth, (int)sum->completed);
+        }
     }
     // debug-assertion probes (run in a forked child each)
     if (shard == 0 && !(only && std::string(only).find("probe") == std::string::npos))
